@@ -63,10 +63,28 @@ def nextLabel (s : State) (t : Nat) (d : Nat) : Option Label :=
   | .dHelpT => some .casTailD
   | .dCas => some .casHead
 
-/-- `k` consecutive own steps of `t` (everybody else frozen) -/
+/-- labels of the queue operations: what a thread executes inside `cds_lfq_enqueue_rcu` / `cds_lfq_dequeue_rcu`
+(no section entry/exit, no call, no destroy, no environment step) -/
+def OpLabel (l : Label) : Prop := l ≠ .lock ∧ l ≠ .unlock ∧ (∀ p, l ≠ .reclaim p) ∧ l ≠ .destroy ∧
+  (∀ n, l ≠ .enqCall n) ∧ l ≠ .deqCall
+
+/-- `k` consecutive own steps of `t` inside its operation; nobody else moves (every other thread stays frozen
+wherever it is, no grace period ends, nothing is reclaimed) -/
 inductive SoloRun (c : Cfg) (t : Nat) : Nat → State → State → Prop
   | done (s) : SoloRun c t 0 s s
-  | step {k s s1 s2 l o} : step c s t l = some (s1, o) → l ≠ .lock → l ≠ .unlock → (∀ p, l ≠ .reclaim p) →
+  | step {k s s1 s2 l o} : step c s t l = some (s1, o) → OpLabel l →
       SoloRun c t k s1 s2 → SoloRun c t (k + 1) s s2
+
+/-- executable solo run: thread `t` alone executes its next label (`make_dummy` returns the unused address `s.hi`)
+until its operation returns or `k` steps are used; result: final state and the number of steps taken -/
+def soloExec (c : Cfg) (t : Nat) : Nat → State → Option (State × Nat)
+  | 0, s => if s.pc t = .idle then some (s, 0) else none
+  | k+1, s =>
+    match nextLabel s t s.hi with
+    | none => some (s, 0)
+    | some l =>
+      match step c s t l with
+      | some (s1, _) => (soloExec c t k s1).map fun r => (r.1, r.2 + 1)
+      | none => none
 
 end UrcuVerif.Lfq
